@@ -83,7 +83,7 @@ func (s *stats) labels() []string {
 	for v := range s.aimed {
 		l = append(l, "stream-break-when-an-attaching-observer-reached-"+v)
 	}
-	add(s.aimedBig, "stream-break-at-first-update-of-a-walk-over>=1000-leaves")
+	add(s.aimedBig, "stream-break-at-registration-or-first-update-of-a-walk-over>=1000-leaves")
 	add(s.breakLoses, "leaves-lost-while-disconnected")
 	add(s.reconnected, "collector-subscribed-again")
 	add(s.observers > 0, "observers-while-the-scripts-play")
